@@ -9,7 +9,10 @@ KEYS = ['parso.python.diff._update_positions', 'parso.python.diff._is_indentatio
         'parso.python.diff._skip_dedent_error_leaves', 'parso.python.diff._ends_with_newline', 'parso.python.diff._get_last_line',
         # copy conditions, helper by helper
         'parso.python.diff._flows_finished', 'parso.python.diff._func_or_class_has_suite',
-        'parso.python.diff._suite_or_file_input_is_valid', 'parso.python.diff._is_flow_node']
+        'parso.python.diff._suite_or_file_input_is_valid', 'parso.python.diff._is_flow_node',
+        # the diff branch of the API: the cached module is reused only for identical lines, the updated module is filed with
+        # the new lines
+        'parso.grammar.Grammar.parse']
 
 
 def run(report):
